@@ -106,12 +106,66 @@ def run(tier: str, seed: int) -> int:
         relational_from_exact=n_from_exact, relational_float=len(scns) - n_from_exact, relational_degenerate_skipped=ndeg,
         exact_two_step_fit=sum(1 for j in res if insts[j]["nsteps"] == 2), exact_two_step_total=sum(1 for x in insts if x["nsteps"] == 2),
     )
+    _adaptive_dense_vs_isotropic(rep, tier)
     rep.assumptions = [
         "exact arithmetic: q <= 2, d <= 2, one or two steps, h in {1, 1/2, 2}; instances whose rationals leave 32 bits are dropped (most two-step instances with q = 2, d = 2); orders 3-4 and 3-6 steps are compared between the implementations only (float64, 1e-9 relative)",
         "TS0 statements are replayed with the default (unit) base scales as in the property; scenarios with polynomial solutions (zero residual, hence zero dynamic scale and a singular predicted covariance) are skipped for the dynamic solver",
         "adaptive runs of the dense/isotropic pair are not replayed here (fixed grids only); the fixed-point smoother is not used on fixed grids",
     ]
     return rep.finish()
+
+
+def _adaptive_dense_vs_isotropic(rep, tier):
+    """adaptive runs of the dense / isotropic pair: with zeroth-order linearisation the accepted step sequences must
+    coincide and the outputs agree, for every calibration mode, strategy, error estimator and error norm"""
+    import warnings
+
+    import jax.numpy as jnp
+    import numpy as np
+
+    from harness import realruns
+    from probdiffeq import ivpsolve
+    from probdiffeq import probdiffeq as pdq
+
+    def vf(u, *, t):
+        return jnp.asarray([u[1] * u[2], -u[0] * u[2], -0.5 * u[0] * u[1]]) + 0.1 * jnp.sin(t)
+
+    u0 = jnp.asarray([0.3, 0.8, 1.0])
+    ode = pdq.ode(vf, jacobian=pdq.jacobian_materialize())
+    tc, _ = pdq.jetexpand_ode_padded_scan(num=3)(ode, (u0,), t=0.0)
+    norms = {"scale_then_rms": pdq.error_norm_scale_then_rms, "rms_then_scale": pdq.error_norm_rms_then_scale}
+    combos = []
+    for sv in ("solver", "mle", "dynamic"):
+        for strat in ("filter", "fixedpoint"):
+            for est in ("residual", "state"):
+                for nm in norms:
+                    combos.append((sv, strat, est, nm))
+    if tier == "quick":
+        combos = combos[::6] + [("mle", "filter", "residual", "rms_then_scale"), ("dynamic", "fixedpoint", "state", "rms_then_scale")]
+    for sv, strat, est, nm in combos:
+        sols = {}
+        for ssm_name in ("dense", "iso"):
+            ssm = realruns.SSMS[ssm_name]()
+            prior = ssm.prior_wiener_integrated(tc)
+            constraint = ssm.constraint_ode_ts0(ode)
+            solver = realruns.make_solver(sv, strat, constraint)
+            mk = pdq.error_residual_std if est == "residual" else pdq.error_state_std
+            err = mk(constraint=constraint, error_norm=norms[nm]())
+            with warnings.catch_warnings():
+                warnings.simplefilter("ignore")
+                sols[ssm_name] = ivpsolve.solve_adaptive_save_at(solver=solver, error=err)(
+                    prior, save_at=jnp.asarray([0.0, 0.5, 1.3, 2.0]), atol=1e-4, rtol=1e-3, dt0=0.05)
+        a, b = sols["dense"], sols["iso"]
+        rep.traces += 1
+        rep.add_case(("adaptive-dense-vs-iso", sv, strat, est, nm))
+        key = f"impl:agree:adaptive:{sv}:{strat}:{est}:{nm}:dense==iso"
+        if not np.array_equal(np.asarray(a.num_steps), np.asarray(b.num_steps)):
+            rep.violation(key + ":step-sequence", f"accepted step counts differ: dense {np.asarray(a.num_steps)} vs isotropic {np.asarray(b.num_steps)}", {})
+            continue
+        if realruns.rel(realruns.flat(a.u.mean), realruns.flat(b.u.mean)) > 1e-8:
+            rep.violation(key + ":mean", f"means differ by {realruns.rel(realruns.flat(a.u.mean), realruns.flat(b.u.mean)):.2e}", {})
+        if realruns.rel(realruns.flat(a.output_scale), realruns.flat(b.output_scale)) > 1e-8:
+            rep.violation(key + ":output_scale", "estimated scales differ", {})
 
 
 def replay(rep_obj) -> int:
